@@ -760,3 +760,123 @@ def terminal_correction_is_the_chain_rule(K, columns):
                 add = sum(K.cell_val(K.cell(J0, r, nreg + k)) * K.cell_val(K.cell(TT, term._terminal_column_index[k], pos)) for k in range(nterm))
                 K.ensure(f"row {r}, unknown {tuple(spot)}: element {pos} of the last state - chain rule through every terminal unknown", K.real_eq(K.cell_val(K.cell(R, r, c)), base + add))
     K.ensure("the input Jacobian is not modified", K.And(*[K.cell_eq(K.cell(J, r, c), K.cell(J0, r, c)) for r in range(nrows) for c in range(nreg + nterm)]))
+
+
+# ------------------------------------------------------------------------------ which unknowns an equation is differentiated with respect to
+from irispie.incidences.main import Token as _Token
+from irispie.equations import Equation as _Equation
+from irispie.period_by_period import _jacobians as PBP
+
+
+@contract("C02", targets=["irispie.steadiers._jacobian:_SteadyJacobian._create_eid_to_wrts", "irispie.period_by_period._jacobians:Jacobian._create_eid_to_wrts",
+                          "irispie.incidences.main:is_qid_in_tokens", "irispie.incidences.main:is_qid_zero_in_tokens"],
+          instances=[("steady",), ("period",)], opts={"max_paths": 3000})
+def derivative_seeds_cover_every_occurrence(K, which):
+    """An equation gets a derivative column for an unknown exactly when the unknown occurs in it: in a steady system at
+    ANY time shift (x[-1] and x[+1] are functions of the level and change of x), in a period-by-period system at the
+    current date only.  An unknown left out here has a zero column in the Jacobian whatever the equation says."""
+    toks = [(K.int(f"q{i}", 0, 3), K.int(f"s{i}", -2, 2)) for i in range(2)]
+    eqn = K.obj(_Equation, id=7, incidence=tuple(K.call(_Token, q, s) for q, s in toks))
+    other = K.obj(_Equation, id=9, incidence=(_Token(1, -1),))
+    wrts = (2, 0, 1)
+    if which == "steady":
+        out = K.call(SJ._SteadyJacobian._create_eid_to_wrts, None, (eqn, other), wrts)
+    else:
+        out = K.call(PBP.Jacobian._create_eid_to_wrts, None, (eqn, other), wrts)
+    got = tuple(K.items(K.index(out, 7)))
+    for w in wrts:
+        occurs = K.Or(*[K.And(q == w, True if which == "steady" else s == 0) for q, s in toks])
+        K.ensure(f"unknown {w} is differentiated iff it occurs", K.Or(*[g == w for g in got], False) == occurs)
+    K.ensure("in the order of the unknowns", all(wrts.index(a) < wrts.index(b) for a, b in zip(got, got[1:])))
+    K.ensure("the other equation", tuple(K.items(K.index(out, 9))) == ((1,) if which == "steady" else ()))
+
+
+# ------------------------------------------------------------------------------ the stacked-time evaluator: what the Jacobian is evaluated AT
+from irispie.stacked_time import _evaluators as STE
+from irispie import quantities as _Q
+
+
+class _SeenBy:
+    """harness stand-in for the stacked-time Equator / Jacobian: eval(data) returns what the data array holds at the
+    moment of the call (so the contract can state at which point the real evaluator hands the data over)"""
+
+    def __init__(self, what):
+        self.what = what
+
+    def eval(self, data_array):
+        if self.what == "equator":
+            return (np.copy(data_array[0, 1:4]), np.copy(data_array[1, 1:4]))
+        return np.copy(data_array)
+
+
+class _Terminal:
+    """harness stand-in for the first-order terminator: the terminal cell is a function of the last simulated column"""
+    terminal_wrt_spots = (_Token(0, 3),)
+
+    def terminate_simulation(self, data_array):
+        data_array[0, 3] = 2 * data_array[0, 2] + 1
+
+    def terminate_jacobian(self, jacobian):
+        return ("terminal condition folded in", jacobian)
+
+
+@contract("C02", targets=["irispie.stacked_time._evaluators:create_evaluator", "irispie.stacked_time._evaluators:_create_update_map",
+                          "irispie.quantities:create_qid_to_logly", "irispie.quantities:generate_where_logly"],
+          instances=[(f, t) for f in ("eval_jacob", "eval_func", "eval_func_jacob") for t in (True, False)], cross=4, opts={"max_paths": 3000})
+def jacobian_and_residuals_are_taken_at_the_guess_passed_in(K, fname, with_terminal):
+    """eval_func / eval_jacob / eval_func_jacob(guess, data): the guess is written to its (row, column) spots (exp of
+    it for log-variables), THEN the terminal values implied by it are written, THEN residuals and Jacobian are
+    evaluated on that array, and the terminal condition is folded into the Jacobian last.  A Jacobian evaluated before
+    the terminal values are refreshed is the derivative at some earlier guess."""
+    spots = [_Token(0, 1), _Token(1, 1), _Token(0, 2), _Token(1, 2)]
+    qs = [_Q.Quantity(id=0, human="x", kind=_Q.QuantityKind.TRANSITION_VARIABLE, logly=False),
+          _Q.Quantity(id=1, human="z", kind=_Q.QuantityKind.TRANSITION_VARIABLE, logly=True)]
+    term = K.obj(_Terminal) if with_terminal else None
+    made = []
+
+    def make(kind):
+        def ctor(*a, **k):
+            made.append((kind, k.get("terminator", None), a[1] if len(a) > 1 and kind == "jacobian" else None))
+            return K.obj(_SeenBy, what=kind)
+        return ctor
+    ev = K.stubbed(STE.Equator, make("equator"), "the residual evaluator is represented by what it is given (its own contracts are separate)",
+                   lambda: K.stubbed(STE.Jacobian, make("jacobian"), "the Jacobian evaluator is represented by what it is given (its own contracts are separate)",
+                                     lambda: K.call(STE.create_evaluator, spots, (1, 2), (), qs, term, None)))
+    jac = [m for m in made if m[0] == "jacobian"]
+    K.ensure("the Jacobian is built for the guess spots followed by the terminal spots, with the terminator",
+             len(jac) == 1 and jac[0][1] is term and tuple(jac[0][2]) == tuple(spots) + ((_Token(0, 3),) if with_terminal else ()))
+    data = K.array("data", (2, 5), nan=False)
+    old = K.snapshot(data)
+    g = K.array("g", (4,), nan=False)
+    out = K.call(K.attr(ev, fname), g, data)
+    gv = [K.cell_val(K.cell(g, i)) for i in range(4)]
+    want = {(0, 1): gv[0], (1, 1): K.exp(gv[1]), (0, 2): gv[2], (1, 2): K.exp(gv[3])}
+    if with_terminal:
+        want[(0, 3)] = 2 * gv[2] + 1
+
+    def expected(r, c):
+        return want.get((r, c), K.cell_val(K.cell(old, r, c)))
+    if fname == "eval_func":
+        res, J = out, None
+    elif fname == "eval_jacob":
+        res, J = None, out
+    else:
+        res, J = out
+    if res is not None:
+        K.ensure("residual vector: equations within a period, periods one after another", K.shape(res) == (6,))
+        for c in range(3):
+            for r in range(2):
+                K.ensure(f"residual of equation {r} in column {c + 1} is evaluated on the updated array",
+                         K.real_eq(K.cell_val(K.cell(res, 2 * c + r)), expected(r, c + 1)))
+    if J is not None:
+        if with_terminal:
+            K.ensure("the terminal condition is folded into the Jacobian", isinstance(J, tuple) and J[0] == "terminal condition folded in")
+            J = J[1]
+        for r in range(2):
+            for c in range(5):
+                K.ensure(f"the Jacobian sees cell ({r},{c}) of the array updated with THIS guess and its terminal values",
+                         K.real_eq(K.cell_val(K.cell(J, r, c)), expected(r, c)))
+    for r in range(2):
+        for c in range(5):
+            K.ensure(f"data array after the call: cell ({r},{c})", K.real_eq(K.cell_val(K.cell(data, r, c)), expected(r, c)))
+    K.ensure("the guess vector itself is not modified", K.And(*[K.real_eq(K.cell_val(K.cell(g, i)), gv[i]) for i in range(4)]))
